@@ -29,6 +29,10 @@
 // K: three flags: d.Edits unchanged after every call; lhs, rhs, d.Left, d.Right unchanged at the
 // end; every call returned its receiver.
 //
+// ARBITRARY CHUNK LISTS for the exported UnifyChunks (chunks that need not come from a Diff):
+//
+//	U <chunks> | U=<chunks>      (or U=panic:<kind>)
+//
 // K: four flags: d.Edits unchanged (deep comparison with a copy taken after New) after
 // AddContext; the same after Unify; lhs and rhs unchanged at the end; AddContext and Unify
 // returned their receiver.
@@ -210,8 +214,62 @@ func execHist(opsS, lhsS, rhsS string) string {
 	return out + " H=" + hs + " K=" + k
 }
 
+var opCode = map[string]slice.EditOp{"D": slice.OpDrop, "E": slice.OpEmit, "C": slice.OpCopy, "R": slice.OpReplace}
+
+func parseChunks(s string) ([]*mdiff.Chunk, bool) {
+	if s == "." {
+		return nil, true
+	}
+	var out []*mdiff.Chunk
+	for _, cs := range strings.Split(s, "_") {
+		p := strings.Split(cs, ";")
+		if len(p) != 5 {
+			return nil, false
+		}
+		c := new(mdiff.Chunk)
+		var err [4]error
+		c.LStart, err[0] = strconv.Atoi(p[0])
+		c.LEnd, err[1] = strconv.Atoi(p[1])
+		c.RStart, err[2] = strconv.Atoi(p[2])
+		c.REnd, err[3] = strconv.Atoi(p[3])
+		for _, e := range err {
+			if e != nil {
+				return nil, false
+			}
+		}
+		if p[4] != "." {
+			for _, es := range strings.Split(p[4], "/") {
+				q := strings.Split(es, ":")
+				op, ok := opCode[q[0]]
+				if len(q) != 3 || !ok {
+					return nil, false
+				}
+				// spare capacity with a sentinel behind every line list
+				c.Edits = append(c.Edits, mdiff.Edit{Op: op, X: padded(tr.UnHexList(q[1])), Y: padded(tr.UnHexList(q[2]))})
+			}
+		}
+		out = append(out, c)
+	}
+	return out, true
+}
+
+func execUnify(s string) string {
+	cs, ok := parseChunks(s)
+	if !ok {
+		return "?"
+	}
+	var out []*mdiff.Chunk
+	if p := tr.Catch(func() { out = mdiff.UnifyChunks(cs) }); p != "" {
+		return "U=" + p
+	}
+	return "U=" + fmtChunks(out)
+}
+
 func exec(in string) string {
 	f := strings.Fields(in)
+	if len(f) == 2 && f[0] == "U" {
+		return execUnify(f[1])
+	}
 	if len(f) == 5 && f[0] == "H" {
 		return execHist(f[1], f[3], f[4])
 	}
@@ -534,6 +592,61 @@ func structured(r *tr.Rand, alpha []string) (lhs, rhs []string) {
 	return
 }
 
+// an arbitrary chunk list for UnifyChunks: mostly ascending, neighbours apart, adjacent or
+// overlapping by up to two lines more than the context edit at the boundary holds; edits of all
+// four kinds, chunks without edits, context edits at either, both or neither side of a boundary
+func randChunks(r *tr.Rand) []*mdiff.Chunk {
+	alpha := []string{"a", "b", "c"}
+	randEdit := func(op slice.EditOp) mdiff.Edit {
+		e := mdiff.Edit{Op: op}
+		if op != slice.OpCopy {
+			e.X = randLines(r, alpha, r.Intn(4))
+		}
+		if op == slice.OpCopy || op == slice.OpReplace {
+			e.Y = randLines(r, alpha, r.Intn(3))
+		}
+		return e
+	}
+	ops := []slice.EditOp{slice.OpDrop, slice.OpEmit, slice.OpCopy, slice.OpReplace}
+	var out []*mdiff.Chunk
+	pos, rpos := 1+r.Intn(3), 1+r.Intn(3)
+	for k := 1 + r.Intn(4); k > 0; k-- {
+		c := &mdiff.Chunk{LStart: pos, RStart: rpos}
+		if r.Chance(1, 2) {
+			c.Edits = append(c.Edits, randEdit(slice.OpEmit))
+		}
+		for j := r.Intn(3); j > 0; j-- {
+			c.Edits = append(c.Edits, randEdit(tr.Pick(r, ops)))
+		}
+		if r.Chance(1, 2) {
+			c.Edits = append(c.Edits, randEdit(slice.OpEmit))
+		}
+		nl, nr := 0, 0
+		for _, e := range c.Edits {
+			if e.Op != slice.OpCopy {
+				nl += len(e.X)
+			}
+			switch e.Op {
+			case slice.OpEmit:
+				nr += len(e.X)
+			case slice.OpCopy, slice.OpReplace:
+				nr += len(e.Y)
+			}
+		}
+		if r.Chance(1, 8) { // ranges that do not fit the edits
+			nl, nr = r.Intn(5), r.Intn(5)
+		}
+		c.LEnd, c.REnd = c.LStart+nl, c.RStart+nr
+		out = append(out, c)
+		d := r.Intn(8) - 4 // next chunk: from 4 lines before the end to 3 lines after it
+		pos, rpos = c.LEnd+d, c.REnd+d
+		if r.Chance(1, 10) {
+			rpos += r.Intn(3) - 1
+		}
+	}
+	return out
+}
+
 func randLines(r *tr.Rand, alpha []string, n int) []string {
 	out := make([]string, n)
 	for i := range out {
@@ -576,7 +689,7 @@ func mutate(r *tr.Rand, alpha []string, lhs []string) []string {
 	return out
 }
 
-const rule = "C13: New(lhs, rhs).AddContext(n).Unify() on every pair of line sequences of length <= 5 over 2 symbols for every n in 0..3 (15876 cases, every run); every pair of length <= 3 (quick) / 4 (thorough) over 3 symbols, n in 0..3; random repetitive texts (a short block repeated with disturbances), random texts, and texts derived from one another by a few local edits (long common runs), lengths up to 40, alphabets of 2-4 lines including the empty line, n from {0,1,2,3,5,8,100} (n larger than every gap). The edit script slice.EditScript returned is recorded with the input (oracle) and compared with d.Edits; every fourth case carries no oracle and is predicted by the composed model (model of slice.EditScript + chunk model). n also from {-1, MaxInt64, MinInt64}. HISTORIES (H/HC lines): after New, any sequence of AddContext(n_i) and Unify calls: 23 fixed sequences (Unify alone, Unify twice, AddContext twice with equal/growing/shrinking n, AddContext after Unify, Unify-AddContext-Unify, negative/zero/MaxInt64/MinInt64 n in between) on every pair of sequences of length <= 4 (quick) / 5 (thorough) over 2 symbols, and a random sequence of 2-7 calls (n from {1,2,3,4,6,0,-1,100,MaxInt64,MinInt64}) on every second random pair and on structured pairs (2-4 changed lines separated by common runs of 1-8 lines, so that several calls stack several layers of context in one gap); d.Chunks recorded after every call. A case is non-trivial when there is at least one chunk and n > 0 (pipeline) or at least two calls (history); counters say how many cases had several chunks, overlapping or adjacent chunks after AddContext, chunks merged by Unify, chunks kept apart by Unify."
+const rule = "C13: New(lhs, rhs).AddContext(n).Unify() on every pair of line sequences of length <= 5 over 2 symbols for every n in 0..3 (15876 cases, every run); every pair of length <= 3 (quick) / 4 (thorough) over 3 symbols, n in 0..3; random repetitive texts (a short block repeated with disturbances), random texts, and texts derived from one another by a few local edits (long common runs), lengths up to 40, alphabets of 2-4 lines including the empty line, n from {0,1,2,3,5,8,100} (n larger than every gap). The edit script slice.EditScript returned is recorded with the input (oracle) and compared with d.Edits; every fourth case carries no oracle and is predicted by the composed model (model of slice.EditScript + chunk model). n also from {-1, MaxInt64, MinInt64}. HISTORIES (H/HC lines): after New, any sequence of AddContext(n_i) and Unify calls: 23 fixed sequences (Unify alone, Unify twice, AddContext twice with equal/growing/shrinking n, AddContext after Unify, Unify-AddContext-Unify, negative/zero/MaxInt64/MinInt64 n in between) on every pair of sequences of length <= 4 (quick) / 5 (thorough) over 2 symbols, and a random sequence of 2-7 calls (n from {1,2,3,4,6,0,-1,100,MaxInt64,MinInt64}) on every second random pair and on structured pairs (2-4 changed lines separated by common runs of 1-8 lines, so that several calls stack several layers of context in one gap); d.Chunks recorded after every call. ARBITRARY CHUNK LISTS (U lines): the exported UnifyChunks on 4000 (quick) / 100000 (thorough) random lists of 1-4 chunks with edits of all kinds, neighbours apart, adjacent or overlapping by more or less than the context edit at the boundary, with or without context edits on either side, some with ranges that do not fit their edits; panics (nil edit pointer, the explicit merge panic, slice bounds) are part of the compared output. A case is non-trivial when there is at least one chunk and n > 0 (pipeline) or at least two calls (history); counters say how many cases had several chunks, overlapping or adjacent chunks after AddContext, chunks merged by Unify, chunks kept apart by Unify."
 
 func gen(g *tr.G) {
 	k := 0
@@ -639,6 +752,25 @@ func gen(g *tr.G) {
 			for _, h := range fixed {
 				ops, un := mk(h...)
 				emitHist(ops, un, l, r, "hist-exhaustive-2")
+			}
+		}
+	}
+	// ---- UnifyChunks on arbitrary chunk lists
+	for i := 0; i < g.Scale(4000, 100000); i++ {
+		cs := randChunks(g.R)
+		out := g.Emit("U "+fmtChunks(cs), false)
+		g.W.Count("unify-arbitrary", 1)
+		switch {
+		case strings.Contains(out, "panic:nil"):
+			g.W.Count("unify-arbitrary-panic-nil", 1)
+		case strings.Contains(out, "panic:other"):
+			g.W.Count("unify-arbitrary-panic-merge", 1)
+		case strings.Contains(out, "panic:"):
+			g.W.Count("unify-arbitrary-panic-index", 1)
+		default:
+			if strings.Count(out, "_") < len(cs)-1 {
+				g.W.Count("unify-arbitrary-merged", 1)
+				g.W.NonTriv++
 			}
 		}
 	}
